@@ -33,6 +33,7 @@ type convCfg struct {
 	route        string
 	init         []bool
 	extra        []string
+	fill         string // "": distinct pattern; "cancel": constant input, alternating +1/-1 kernel (taps cancel exactly); "equal": all elements equal
 }
 
 func convJob(cf convCfg) opJob {
@@ -40,6 +41,17 @@ func convJob(cf convCfg) opJob {
 	var B *ref.T
 	if cf.bias {
 		B = convFill(cf.dt, []int{cf.w[0]}, 3)
+	}
+	switch cf.fill {
+	case "cancel":
+		X = ref.Fill(cf.dt, cf.x, func(i int) float64 { return 1.5 })
+		W = ref.Fill(cf.dt, cf.w, func(i int) float64 { return float64(1 - 2*(i%2)) })
+		if cf.bias {
+			B = ref.Fill(cf.dt, []int{cf.w[0]}, func(i int) float64 { return 0 })
+		}
+	case "equal":
+		X = ref.Fill(cf.dt, cf.x, func(i int) float64 { return -0.75 })
+		W = ref.Fill(cf.dt, cf.w, func(i int) float64 { return 2 })
 	}
 	a := cf.a
 	var attrs []hx.Attr
@@ -101,7 +113,7 @@ func convJob(cf convCfg) opJob {
 			tags = append(tags, "kh!=kw")
 		}
 	}
-	desc := fmt.Sprintf("x%v w%v b=%v ks=%v %s d%v p%v s%v", cf.x, cf.w, cf.bias, cf.kshape, a.AutoPad, a.Dilations, a.Pads, a.Strides)
+	desc := fmt.Sprintf("x%v w%v b=%v ks=%v %s d%v p%v s%v %s", cf.x, cf.w, cf.bias, cf.kshape, a.AutoPad, a.Dilations, a.Pads, a.Strides, cf.fill)
 	dom := hx.DCompute
 	j := newJob("Conv", attrs, []*ref.T{X, W, B}, []*ref.T{exp}, err, dom, hx.Dot, cf.route, cf.init, desc, tags...)
 	if err != nil {
@@ -265,6 +277,19 @@ func checkC05(c *hx.Checker) {
 	} {
 		lg.extra = []string{"large"}
 		jobs = append(jobs, convJob(lg))
+	}
+	// value patterns: taps that cancel exactly (zero results), all-equal operands
+	for _, fill := range []string{"cancel", "equal"} {
+		for _, cf := range []convCfg{
+			{dt: ref.F32, x: []int{1, 2, 4, 4}, w: []int{2, 2, 2, 2}, bias: true, a: ref.ConvAttrs{}, route: "op"},
+			{dt: ref.F32, x: []int{2, 1, 3, 4}, w: []int{1, 1, 2, 2}, bias: false, a: ref.ConvAttrs{Pads: []int{1, 1, 1, 1}}, route: "op"},
+			{dt: ref.F32, x: []int{1, 2, 6}, w: []int{3, 2, 2}, bias: true, a: ref.ConvAttrs{Strides: []int{2}}, route: "op"},
+			{dt: ref.F32, x: []int{1, 1, 5}, w: []int{1, 1, 4}, bias: false, a: ref.ConvAttrs{AutoPad: "SAME_UPPER"}, route: "model"},
+		} {
+			cf.fill = fill
+			cf.extra = []string{"value-pattern"}
+			jobs = append(jobs, convJob(cf))
+		}
 	}
 	refuse := func(cf convCfg, desc string) {
 		j := convJob(cf)
